@@ -169,6 +169,8 @@ def make_run(scn, max_steps=4000, line_preempt=False):
             "schedule": [t[3] for t in sched.trace],
             "failure": failure, "uncaught": [u for u in sched.uncaught if not isinstance(u[1], Boom)], "hist": hist,
             "threads": [t.name for t in sched.order], "stuck": alive, "stuck_labels": dict(sched.stuck_labels), "begs": list(env["begs"]),
+            # the registry at the end of the run: (watch id) of every emitter the observer reports
+            "final_emitters": sorted(getattr(e, "wid", -1) for e in list(env["obs"].emitters)),
         }
         return sched, result
 
